@@ -204,6 +204,12 @@ _installed = False
 def install(root):
     """Create the worker's SimFS and install the seams (idempotent)."""
     global CURRENT, _installed
+    if CURRENT is not None:
+        for fd in list(CURRENT.fds):
+            try:
+                _real_close(fd)
+            except OSError:
+                pass
     CURRENT = SimFS(root)
     if not _installed:
         _installed = True
@@ -212,9 +218,10 @@ def install(root):
         os.read = _os_read
         os.lseek = _os_lseek
         os.close = _os_close
-        # open() of the modules under test: a module attribute shadows the builtin
-        import baize.wsgi.responses as wr
-        import baize.datastructures as ds
-        wr.open = _open
-        ds.open = _open
+    # open() of the modules under test: a module attribute shadows the builtin (re-attached whenever the
+    # library modules were imported afresh)
+    import baize.wsgi.responses as wr
+    import baize.datastructures as ds
+    wr.open = _open
+    ds.open = _open
     return CURRENT
